@@ -6,6 +6,12 @@ import Qhttp.Model.Socket
   JSON serialisation (the file content is represented by its set of top-level keys).
   `LocalFile::open()` = create-or-truncate (`0666 & ~umask` when new, mode kept when it exists),
   then `chmod 0600`.
+  Fault path: `LocalFile::open()` FAILS while something that is not a regular file occupies the
+  advertised name (`Op.block` puts a directory there, `Op.unblock` takes it away).  Then
+  `QFile::open(WriteOnly)` fails (EISDIR), `setPermission()` is not reached, `updateFile()` writes
+  nothing; the middleware keeps `data` (with the token) in memory and writes all of it at the next
+  `updateFile()` that can open the file.  `QFile::remove()` of a directory fails (unlink: EISDIR),
+  so the destructor leaves the obstacle where it is.
 -/
 namespace Qhttp
 namespace LocalAuth
@@ -24,6 +30,8 @@ inductive Op
   | setHeaderName (n : Bytes)
   | req (hdr : Option (Bytes × TokVal)) -- one request carrying (name, value) or no such header
   | destroy
+  | block                               -- a directory appears at the advertised file name (only when nothing is there)
+  | unblock                             -- that directory is removed again
 deriving Repr, DecidableEq
 
 structure File where
@@ -38,6 +46,7 @@ structure St where
   alive    : Bool := false
   hdrName  : Bytes := lit ['X','-','A','u','t','h','-','T','o','k','e','n']
   file     : Option File := none
+  blocked  : Bool := false          -- a directory occupies the advertised name: `LocalFile::open()` fails
   log      : List Obs := []
 deriving Repr
 
@@ -49,12 +58,16 @@ def insertKey (k : Bytes) : List Bytes → List Bytes
 
 def sortKeys (ks : List Bytes) : List Bytes := ks.foldr insertKey []
 
-/-- `updateFile()`: open (create/truncate), chmod 0600, write the JSON object of `data` -/
+/-- `updateFile()`: open (create/truncate), chmod 0600, write the JSON object of `data`;
+    nothing at all when the open fails -/
 def writeFile (s : St) (keys : List Bytes) : St :=
+  if s.blocked then s else
   { s with file := some { mode := 0o600, keys := sortKeys keys, hasToken := keys.contains TOKEN } }
 
-/-- snapshot observation: exists, mode, keys, token member present and equal to the current token -/
+/-- snapshot observation: exists, mode, keys, token member present and equal to the current token;
+    a directory at the name is not the advertised file: "no file" -/
 def snap (s : St) : Obs :=
+  if s.blocked then .misc 10 [] else
   match s.file with
   | none => .misc 10 []
   | some f => .misc 10 ([1, UInt8.ofNat (f.mode / 64 % 8), UInt8.ofNat (f.mode / 8 % 8), UInt8.ofNat (f.mode % 8),
@@ -69,7 +82,7 @@ def step (s : St) (op : Op) : St :=
   let s :=
     match op with
     | .umask m => { s with umask := m }
-    | .pre mode => if s.alive then s else { s with file := some { mode := mode, keys := [lit ['j','u','n','k']], hasToken := false } }
+    | .pre mode => if s.alive || s.blocked then s else { s with file := some { mode := mode, keys := [lit ['j','u','n','k']], hasToken := false } }
     | .create =>
       if s.alive then s else
       -- the constructor stores the token in the data before the first write
@@ -79,7 +92,11 @@ def step (s : St) (op : Op) : St :=
     | .req hdr =>
       if !s.alive then s else
       { s with log := s.log ++ [Obs.misc 11 [if admits s hdr then 1 else 0]] }
+    -- `file.remove()`: removes the file if there is one, whatever happened at construction; a
+    -- directory at the name stays (`blocked` unchanged)
     | .destroy => if !s.alive then s else { s with alive := false, file := none }
+    | .block => if s.blocked || s.file.isSome then s else { s with blocked := true }
+    | .unblock => { s with blocked := false }
   { s with log := s.log ++ [snap s] }
 
 def run (ops : List Op) : St := ops.foldl step {}
